@@ -11,6 +11,7 @@
 #include <scn/signal.h>
 #include <scn/generator.h>
 #include <scn/adapters.h>
+#include <scn/storage.h>
 #define RUN(name, nthreads, wd, call) if (o.want(name)) { vf::report R("C03", name, o); vf::g_active_report = &R; vf::team T(nthreads, o, wd); call; T.export_hits(R); R.write(); vf::g_active_report = nullptr; }
 int main(int argc, char **argv) {
     vf::opts o(argc, argv);
@@ -30,5 +31,6 @@ int main(int argc, char **argv) {
     RUN("generator_programs", 2, true, scn::generator_programs(o, R, T, o.cases));
     RUN("aggregator_programs", 2, true, scn::aggregator_programs(o, R, T, o.cases));
     RUN("adapter_matrix", 2, true, scn::adapter_matrix(o, R, T, o.cases));
+    RUN("storage_mt", 2, true, scn::storage_mt<true>(o, R, T, o.cases));
     return 0;
 }
